@@ -52,7 +52,7 @@ class SeamMissing(Exception):
 def draw_cfg(rng, profile=None):
     """Draw a world configuration 'swarm style'."""
     profile = profile or {}
-    n_dim = rng.choice(profile.get('n_dim', [2, 2, 3, 3, 4]))
+    n_dim = rng.choice(profile.get('n_dim', [2, 2, 2, 3, 3, 3, 4, 4, 5]))
     lik = workload.draw_lik_spec(
         rng, n_dim,
         family=profile.get('family'), blob=profile.get('blob'),
@@ -72,16 +72,18 @@ def draw_cfg(rng, profile=None):
     periodic = None
     if lik['family'] == 'wrap' and rng.random() < 0.75:
         periodic = [0]
-    elif rng.random() < 0.08:
-        periodic = [rng.randrange(n_dim)]
+    elif rng.random() < 0.1:
+        periodic = sorted(rng.sample(range(n_dim), rng.choice(
+            [1, 1, 2, n_dim])))
     sampler = dict(
         n_live=n_live,
         n_update=rng.choice([None, None, max(5, n_live // 2), n_live * 2]),
         n_batch=n_batch,
         n_like_new_bound=rng.choice([None, None, None, 3 * n_live]),
-        enlarge_per_dim=rng.choice([1.05, 1.1, 1.1, 1.1, 1.1, 1.5, 1.5, 100.0]),
+        enlarge_per_dim=rng.choice([1.01, 1.05, 1.1, 1.1, 1.1, 1.1, 1.5, 1.5,
+                                    100.0]),
         n_points_min=rng.choice([None, n_dim + 1, n_dim + 4, n_dim + 10]),
-        split_threshold=rng.choice([100, 100, 1, 1]),
+        split_threshold=rng.choice([100, 100, 1, 1, 0.3]),
         n_networks=n_networks,
         nn_kwargs=rng.choice([
             dict(hidden_layer_sizes=[8], max_iter=40),
